@@ -8,6 +8,7 @@ their own units.  NOTE (A-lock): the container being written is reached through 
 i.e. a local in this function; its mutation is therefore not observable in a postcondition - no
 heap-effect claim (C05/C12 stay not-applicable); what IS claimed is the dispatch, the operator
 application and every error clause."""
+import re
 import extract
 import parts
 import name_bind
@@ -244,35 +245,38 @@ def build(read):
     b.edits.append("annotation: closures `new_loc_err`, `new_invalid_bind_error` given parameter types, named result and postconditions")
     f1 = extract.annotate_fn(f1, spec=SPEC_NEXT, body_start="    let ghost rhs0 = rhs;\n    let ghost op0 = op;\n")
     # ---- the operation performed on the locked cell (ghost snapshots + labelled assertions)
+    def effect(kind, old_, new_, what):
+        """labelled in-body assertion; if its anchor is not in the current source the clause is skipped (recorded), not the whole unit"""
+        nonlocal f1
+        try:
+            f1 = (extract.rewrite_regex_once if kind == "re" else extract.rewrite_once)(f1, old_, new_, what)
+        except Exception as e:          # Undecided: anchor not found exactly once
+            lab = re.search(r"// \[([^\]]+)\]", new_)
+            b.skipped_clauses.append(lab.group(1) if lab else what)
     f1 = extract.rewrite_once(f1, ".context(EvalListIndexFailed)?;\n",
                               ".context(EvalListIndexFailed)?;\n                    let ghost l0 = items.0.0@;\n", "bind_next: list snapshot")
-    f1 = extract.rewrite_once(
-        f1, ".context(BinOpAssignListIndexFailed)?;\n",
+    effect("s", ".context(BinOpAssignListIndexFailed)?;\n",
         ".context(BinOpAssignListIndexFailed)?;\n"
         "                    proof { assert(items.0.0@ == l0.update(n as int, slot_after(l0[n as int], rhs0, op0)->0)); } // [C11:element_assignment_changes_only_position_i_to_v_or_old_op_v_and_keeps_the_length]\n",
         "bind_next: list write effect")
     f1 = extract.rewrite_once(f1, ".context(EvalObjectIndexFailed)?;\n",
                               ".context(EvalObjectIndexFailed)?;\n                    let ghost m0 = props.0.0@;\n                    let ghost k = name@;\n",
                               "bind_next: object snapshot (index path)")
-    f1 = extract.rewrite_once(
-        f1, ".context(BinOpAssignObjectIndexFailed)?;\n",
+    effect("s", ".context(BinOpAssignObjectIndexFailed)?;\n",
         ".context(BinOpAssignObjectIndexFailed)?;\n"
         "                        proof { assert(props.0.0@ == m0.insert(k, slot_after(m0[k], rhs0, op0)->0)); } // [C12:index_assignment_to_an_existing_key_replaces_exactly_that_property]\n",
         "bind_next: object index write effect (existing key)")
-    f1 = extract.rewrite_regex_once(
-        f1, r"(OpOnUndefinedIndex\{name\}\);\s*\}\s*lock_deref!\(props\)\.insert\([^;]*\);\n)",
+    effect("re", r"(OpOnUndefinedIndex\{name\}\);\s*\}\s*lock_deref!\(props\)\.insert\([^;]*\);\n)",
         r"\1                    proof { assert(!m0.contains_key(k) && props.0.0@ == m0.insert(k, rhs0)); } // [C12:index_assignment_to_an_absent_key_adds_exactly_that_property]\n",
         "bind_next: object index write effect (new key)")
     f1 = extract.rewrite_regex_once(
         f1, r"(Value::Object\(mut props\) => \{\n)(\s*if let Some\(slot\) = lock_deref!\(props\)\.get_mut\(name\) \{\n)",
         r"\1                    let ghost m0 = props.0.0@;\n\2", "bind_next: object snapshot (property path)")
-    f1 = extract.rewrite_once(
-        f1, ".context(BinOpAssignPropFailed)?;\n",
+    effect("s", ".context(BinOpAssignPropFailed)?;\n",
         ".context(BinOpAssignPropFailed)?;\n"
         "                        proof { assert(props.0.0@ == m0.insert(name@, slot_after(m0[name@], rhs0, op0)->0)); } // [C12:property_assignment_to_an_existing_key_replaces_exactly_that_property_like_index_assignment]\n",
         "bind_next: object property write effect (existing key)")
-    f1 = extract.rewrite_regex_once(
-        f1, r"(OpOnUndefinedProp\{name\}\);\s*\}\s*lock_deref!\(props\)\.insert\([^;]*\);\n)",
+    effect("re", r"(OpOnUndefinedProp\{name\}\);\s*\}\s*lock_deref!\(props\)\.insert\([^;]*\);\n)",
         r"\1                    proof { assert(!m0.contains_key(name@) && props.0.0@ == m0.insert(name@, rhs0)); } // [C12:property_assignment_to_an_absent_key_adds_exactly_that_property_like_index_assignment]\n",
         "bind_next: object property write effect (new key)")
     b.edits.append("annotation: ghost snapshots of the locked cell and 6 labelled assertions stating the operation performed on it")
